@@ -1,5 +1,6 @@
 import BadgerModel.Mvcc
 import BadgerProofs.Lemmas.Txn
+import BadgerProofs.Props.C01
 /-!
 # C06 — values and metadata read back exactly as written, wherever they are stored
 
@@ -114,38 +115,50 @@ theorem C06_finEnt_fields (d : Db) (keep : Bool) (cts : Nat) (e : Ent) :
     · simp only [Bool.false_eq_true, if_false]; split <;> rfl
     · simp only [if_true]; rw [hasBit_setTxn _ bitMerge (.inr (.inr (.inr rfl)))]; split <;> rfl
 
+/-- Every pending write is in the memtable after the commit, in its stored form — whatever the
+    duplicate writes are: `commitAndSend` emits `duplicateWrites` first, so a pending write
+    overwrites an older duplicate of the same `(key, version)` (the order fixed for finding F8). -/
+theorem C06_commit_pending_stored (d : Db) (id mts cts : Nat) (t : TxnM) (e : Ent)
+    (hf : d.findTxn id = some t) (hok : (d.commit id mts).2 = .ok cts)
+    (he : e ∈ t.pending) (hpk : t.pending.Pairwise (fun a b => a.key ≠ b.key)) :
+    finEnt d (keepTogetherOf t) cts e ∈ (d.commit id mts).1.lsm.mem := by
+  obtain ⟨t', hf', hg, hcts⟩ := commit_ok_inv hok
+  rw [hf] at hf'; injection hf' with hf'; subst hf'
+  have hl := (commit_goes mts hf hg).2.1
+  rw [← hcts] at hl
+  rw [hl]
+  simp only [commitEntries, List.map_append, List.foldl_append]
+  apply mem_foldl_memPut_of_distinct
+  · rw [List.pairwise_map]
+    refine hpk.imp ?_
+    intro a b hab hc
+    rw [finEnt_key, finEnt_key] at hc
+    exact hab hc.1
+  · exact List.mem_map_of_mem he
+
 /-- After a successful commit, the newest version `≤ ts'` of a written key is the stored form of
     the transaction's pending entry, for every `ts'` from its version on, as long as nothing
     newer was there ("no later write to the key"). Hypotheses: the pending map has one entry
-    per key (`pendingKeysDistinct`, an invariant — `C06_pending_keys_distinct`) and no
-    duplicate writes (always true when every write has version 0; with explicit versions see
-    finding F8). -/
+    per key (an invariant — `C06_pending_keys_distinct`) and the transaction holds no duplicate
+    write (`SetEntryAt` with another version) for this key. -/
 theorem C06_commit_newest (d : Db) (id mts cts ts' : Nat) (t : TxnM) (e : Ent)
     (hf : d.findTxn id = some t) (hok : (d.commit id mts).2 = .ok cts)
-    (he : e ∈ t.pending) (hd : t.dups = [])
+    (he : e ∈ t.pending) (hd : ∀ x ∈ t.dups, x.key ≠ e.key)
     (hpk : t.pending.Pairwise (fun a b => a.key ≠ b.key))
     (hold : ∀ x ∈ d.lsm.allEntries, x.key = e.key → x.ver < (if e.ver = 0 then cts else e.ver))
     (hts : (if e.ver = 0 then cts else e.ver) ≤ ts') :
     newestLE (d.commit id mts).1.lsm.allEntries e.key ts' =
       some (finEnt d (keepTogetherOf t) cts e) := by
+  have hstored := C06_commit_pending_stored d id mts cts t e hf hok he hpk
   obtain ⟨t', hf', hg, hcts⟩ := commit_ok_inv hok
   rw [hf] at hf'; injection hf' with hf'; subst hf'
   have hl := (commit_goes mts hf hg).2.1
   rw [← hcts] at hl
+  rw [hl] at hstored
   rw [hl, allEntries_eq, restEntries_mem]
-  simp only
-  have hce : commitEntries d t cts = t.pending.map (finEnt d (keepTogetherOf t) cts) := by
-    simp [commitEntries, hd]
-  have hdist : (commitEntries d t cts).Pairwise (fun a b => ¬ (a.key = b.key ∧ a.ver = b.ver)) := by
-    rw [hce, List.pairwise_map]
-    refine hpk.imp ?_
-    intro a b hab hc
-    rw [finEnt_key, finEnt_key] at hc
-    exact hab hc.1
-  have hin : finEnt d (keepTogetherOf t) cts e ∈ commitEntries d t cts := by
-    rw [hce]; exact List.mem_map_of_mem he
+  simp only at hstored ⊢
   apply newestLE_unique_max
-  · exact List.mem_append_left _ (mem_foldl_memPut_of_distinct hdist hin)
+  · exact List.mem_append_left _ hstored
   · exact finEnt_key ..
   · rw [finEnt_ver]; exact hts
   · intro y hy hyk hyv
@@ -160,12 +173,13 @@ theorem C06_commit_newest (d : Db) (id mts cts ts' : Nat) (t : TxnM) (e : Ent)
       · exact List.mem_append_right _ h
     rcases List.mem_append.mp hy with hy | hy
     · rcases mem_foldl_memPut hy with hy | hy
-      · rw [hce] at hy
-        obtain ⟨e', he', rfl⟩ := List.mem_map.mp hy
+      · obtain ⟨e', he', rfl⟩ := mem_commitEntries.mp hy
         rw [finEnt_key] at hyk
-        have := pairwise_key_inj hpk he' he hyk
-        subst this
-        exact .inl rfl
+        rcases List.mem_append.mp he' with he' | he'
+        · have := pairwise_key_inj hpk he' he hyk
+          subst this
+          exact .inl rfl
+        · exact absurd hyk (hd e' he')
       · exact .inr (hrest (.inl hy))
     · exact .inr (hrest (.inr hy))
 
@@ -200,7 +214,7 @@ theorem C06_pending_keys_distinct (d : Db) (id : Nat) (t : TxnM) (e : Ent)
     user meta, expiry, version and flags. -/
 theorem C06_commit_then_get (d : Db) (id mts cts ts' : Nat) (t : TxnM) (e : Ent)
     (hf : d.findTxn id = some t) (hok : (d.commit id mts).2 = .ok cts)
-    (he : e ∈ t.pending) (hd : t.dups = [])
+    (he : e ∈ t.pending) (hd : ∀ x ∈ t.dups, x.key ≠ e.key)
     (hpk : t.pending.Pairwise (fun a b => a.key ≠ b.key))
     (hold : ∀ x ∈ d.lsm.allEntries, x.key = e.key → x.ver < (if e.ver = 0 then cts else e.ver))
     (hts : (if e.ver = 0 then cts else e.ver) ≤ ts')
@@ -214,6 +228,23 @@ theorem C06_commit_then_get (d : Db) (id mts cts ts' : Nat) (t : TxnM) (e : Ent)
       hasBit r.emeta bitMerge = hasBit e.emeta bitMerge := by
   rw [hget, C06_commit_newest d id mts cts ts' t e hf hok he hd hpk hold hts]
   exact ⟨_, rfl, C06_finEnt_fields d (keepTogetherOf t) cts e⟩
+
+/-- The same with the snapshot-read theorem C01 plugged in: it suffices that the post-commit
+    LSM state satisfies the structural invariant `LsmInv` (C14). -/
+theorem C06_commit_then_get_inv (d : Db) (id mts cts ts' : Nat) (t : TxnM) (e : Ent)
+    (hf : d.findTxn id = some t) (hok : (d.commit id mts).2 = .ok cts)
+    (he : e ∈ t.pending) (hd : ∀ x ∈ t.dups, x.key ≠ e.key)
+    (hpk : t.pending.Pairwise (fun a b => a.key ≠ b.key))
+    (hold : ∀ x ∈ d.lsm.allEntries, x.key = e.key → x.ver < (if e.ver = 0 then cts else e.ver))
+    (hts : (if e.ver = 0 then cts else e.ver) ≤ ts')
+    (hinv : LsmInv (d.commit id mts).1.lsm) :
+    ∃ r, (d.commit id mts).1.lsm.get e.key ts' = some r ∧
+      r.key = e.key ∧ r.ver = (if e.ver = 0 then cts else e.ver) ∧ r.val = e.val ∧
+      r.umeta = e.umeta ∧ r.exp = e.exp ∧
+      hasBit r.emeta bitDelete = hasBit e.emeta bitDelete ∧
+      hasBit r.emeta bitDiscardEarlier = hasBit e.emeta bitDiscardEarlier ∧
+      hasBit r.emeta bitMerge = hasBit e.emeta bitMerge :=
+  C06_commit_then_get d id mts cts ts' t e hf hok he hd hpk hold hts (C01_get_spec hinv e.key ts')
 
 -- non-vacuity: a value at the threshold goes to the value log (pointer bit), one below stays
 -- inline; in memory never; commit + get returns what was written.
